@@ -178,7 +178,6 @@ impl std::error::Error for TmplError {}
 pub struct TmplGroup {
     trees: BTreeMap<String, Template>,
     scripts: BTreeMap<String, String>,
-    has_scripts: bool,
     extra_runtime_string: String,
     dev_mode: bool,
 }
@@ -189,7 +188,6 @@ impl TmplGroup {
         Self {
             trees: BTreeMap::new(),
             scripts: BTreeMap::new(),
-            has_scripts: false,
             extra_runtime_string: String::new(),
             dev_mode: false,
         }
@@ -202,6 +200,16 @@ impl TmplGroup {
         this
     }
 
+    /// Whether the script runtime is needed: decided by what the group holds now, not by what it
+    /// held at some point (a replaced template, a removed script).
+    fn has_scripts(&self) -> bool {
+        !self.scripts.is_empty()
+            || self
+                .trees
+                .values()
+                .any(|t| t.inline_script_module_names().next().is_some())
+    }
+
     /// Get the dev mode.
     pub fn dev(&self) -> bool {
         self.dev_mode
@@ -211,7 +219,6 @@ impl TmplGroup {
     pub fn import_group(&mut self, group: &TmplGroup) {
         self.trees.extend(group.trees.clone());
         self.scripts.extend(group.scripts.clone());
-        self.has_scripts = self.has_scripts || group.has_scripts;
         self.extra_runtime_string
             .push_str(&group.extra_runtime_string);
     }
@@ -239,9 +246,6 @@ impl TmplGroup {
     /// Add a template into the group.
     pub fn add_tmpl(&mut self, path: &str, tmpl_str: &str) -> Vec<ParseError> {
         let (template, mut parse_state) = crate::parse::parse(path, tmpl_str);
-        if template.inline_script_module_names().next().is_some() {
-            self.has_scripts = true;
-        }
         let ret = parse_state.take_warnings();
         self.trees.insert(template.path.clone(), template);
         ret
@@ -282,7 +286,6 @@ impl TmplGroup {
     /// `require` and `exports` can be visited in this JavaScript segment, similar to Node.js.
     pub fn add_script(&mut self, path: &str, content: &str) {
         self.scripts.insert(path.to_string(), content.to_string());
-        self.has_scripts = true;
     }
 
     /// Remove a script segment from the group.
@@ -306,7 +309,7 @@ impl TmplGroup {
     pub fn get_runtime_string(&self) -> String {
         let mut w = JsTopScopeWriter::new(String::new());
         w.function_scope(|w| {
-            runtime_fns(w, self.has_scripts)?;
+            runtime_fns(w, self.has_scripts())?;
             Ok(())
         })
         .unwrap();
@@ -393,7 +396,7 @@ impl TmplGroup {
         &self,
         w: &mut JsFunctionScopeWriter<String>,
     ) -> Result<(), TmplError> {
-        runtime_fns(w, self.has_scripts)?;
+        runtime_fns(w, self.has_scripts())?;
         if self.extra_runtime_string.len() > 0 {
             w.custom_stmt_str(&self.extra_runtime_string)?;
         }
@@ -488,7 +491,7 @@ impl TmplGroup {
     pub fn export_globals(&self) -> Result<String, TmplError> {
         let mut w = JsTopScopeWriter::new(String::new());
         w.function_scope(|w| {
-            runtime_fns(w, self.has_scripts)?;
+            runtime_fns(w, self.has_scripts())?;
             if self.extra_runtime_string.len() > 0 {
                 w.custom_stmt_str(&self.extra_runtime_string)?;
             }
